@@ -253,6 +253,42 @@ def move_authority_level(ctx):
                     ctx.disagree("MOVE Destination authority: local / remote / error vs model Netloc.verdict", case, got, a["r"])
 
 
+def external_wsgi_level(ctx):
+    """the same round trip behind an external WSGI server that follows PEP 3333: there the request path arrives as the percent-decoded
+    *bytes* read as Latin-1 (the built-in server hands over the UTF-8 decoding itself).  ASCII names must round-trip; for non-ASCII
+    names the application takes the Latin-1 reading for the name (finding F32): reported as a known finding, anything else as a violation"""
+    from common import App
+    rng = ctx.rng("wsgi")
+    ev = ("BEGIN:VCALENDAR\r\nVERSION:2.0\r\nPRODID:x\r\nBEGIN:VEVENT\r\nUID:%s\r\nDTSTAMP:20240101T000000Z\r\nDTSTART:20240102T100000Z\r\n"
+          "SUMMARY:s\r\nEND:VEVENT\r\nEND:VCALENDAR\r\n")
+
+    def wire(url_path):
+        # what a PEP 3333 server puts into PATH_INFO for this request target
+        return urllib.parse.unquote_to_bytes(url_path.split("?", 1)[0]).decode("latin-1")
+    names = ["plain.ics", "a b.ics", "100%.ics", "a+b;c.ics", "caf\u00e9.ics", "\u65e5\u672c.ics", "na\u00efve \U0001f600.ics"]
+    for i in range(ctx.n(8, 60)):
+        name = names[i % len(names)] if i < len(names) else gen_name(rng) + ".ics"
+        if any(ord(c) < 32 for c in name) or "/" in name:
+            continue
+        ascii_only = all(ord(c) < 128 for c in name)
+        with App({"auth": {"type": "none"}}) as app:
+            L = "u:pw"
+            app.request("MKCALENDAR", "/u/c/", login=L)
+            target = "/u/c/" + urllib.parse.quote(name)
+            st, _, _ = app.request("PUT", wire(target), ev % ("w%d" % i), login=L)
+            st1, _, text = app.request("PROPFIND", "/u/c/", None, login=L, HTTP_DEPTH="1")
+            hrefs = [h for h in (parse_multistatus(text)[1] if st1 == 207 else []) if h.rstrip("/") != "/u/c"]
+            st2 = app.request("GET", wire(hrefs[0]), login=L)[0] if hrefs else None
+            st3 = app.request("GET", wire(target), login=L)[0]
+        case = {"name": name, "request_target": target, "PATH_INFO": wire(target), "put": st, "emitted": hrefs, "get_by_emitted_href": st2, "get_by_same_target": st3}
+        ctx.case("external-wsgi:%s" % ("ascii" if ascii_only else "non-ascii"), sample=case, key=["wsgi", name], nontrivial=not ascii_only)
+        ok = st == 201 and st2 == 200 and st3 == 200 and hrefs == [target]
+        if not ok:
+            ctx.violation("behind a PEP 3333 WSGI server the href emitted for %r does not lead back to the resource (PUT %s, emitted %s, GET by it %s)"
+                          % (name, st, hrefs, st2), case, "201, the request target as href, 200", [st, hrefs, st2],
+                          finding=None if ascii_only else "F32")
+
+
 MODES = ["none", "script_name", "x_script_name", "config_proxy"]
 
 
@@ -463,5 +499,6 @@ def run(ctx):
     function_level(ctx)
     url_split_level(ctx)
     move_authority_level(ctx)
+    external_wsgi_level(ctx)
     end_to_end(ctx)
     locations(ctx)
